@@ -1,17 +1,15 @@
 package c07
 
 import (
-	"bufio"
-	"os"
-	"path/filepath"
-	"strconv"
-	"strings"
 	"testing"
 	"unicode/utf8"
 
 	"verif/evid"
 	"verif/gen/corpus"
 )
+
+// TestC07FuzzReplay registers the fuzz check's oracle for --replay of cases recorded from fuzz crashers.
+func TestC07FuzzReplay(t *testing.T) { evid.Register(t, "fuzz", oracle) }
 
 // FuzzC07: coverage-guided supplement of the thorough tier; same oracle as the generated cases.
 func FuzzC07(f *testing.F) {
@@ -29,44 +27,9 @@ func FuzzC07(f *testing.F) {
 		if len(s) > 2048 || !utf8.ValidString(s) {
 			return
 		}
-		if _, err := oracle(Case{Src: "fuzz", Text: s}); err != nil {
-			t.Fatal(err)
+		c := Case{Src: "fuzz", Text: s}
+		if _, err := oracle(c); err != nil {
+			evid.FuzzFail(t, "fuzz", c, err)
 		}
 	})
-}
-
-func TestC07FuzzCrashers(t *testing.T) {
-	if evid.Register(t, "fuzz", oracle) {
-		return
-	}
-	files, _ := filepath.Glob(filepath.Join("testdata", "fuzz", "FuzzC07", "*"))
-	for _, f := range files {
-		s, ok := readGoFuzzString(f)
-		if !ok {
-			continue
-		}
-		if !evid.Case(t, "fuzz", Case{Src: "fuzz", Text: s}, oracle) {
-			return
-		}
-	}
-	evid.R.Extra("fuzz_crashers_replayed", len(files))
-}
-
-func readGoFuzzString(path string) (string, bool) {
-	fh, err := os.Open(path)
-	if err != nil {
-		return "", false
-	}
-	defer fh.Close()
-	sc := bufio.NewScanner(fh)
-	sc.Buffer(make([]byte, 1<<20), 1<<24)
-	if !sc.Scan() || !strings.HasPrefix(sc.Text(), "go test fuzz v1") || !sc.Scan() {
-		return "", false
-	}
-	line := strings.TrimSpace(sc.Text())
-	if !strings.HasPrefix(line, "string(") || !strings.HasSuffix(line, ")") {
-		return "", false
-	}
-	s, err := strconv.Unquote(line[len("string(") : len(line)-1])
-	return s, err == nil
 }
